@@ -52,6 +52,7 @@ LEVEL = {
  'C31': ('bounded symbolic model checking of the real MIR of FilesetExpression::to_matcher and the matcher tree it builds (incl. Box<dyn Matcher> dispatch) for every expression shape in the bound, with all path bytes symbolic: matches(q) is compared by the solver with the set semantics of the expression', '4 C31'),
  'C05': ('bounded symbolic model checking of the real MIR of conflict materialization (all four marker styles, marker-length choice, EOL detection, labels, fmt) followed by the real parser, on conflicts whose content bytes are symbolic (including marker look-alike runs, missing final newline, CRLF, empty side): hunk-for-hunk byte-for-byte equality is a solver obligation per path', '4 C05'),
  'C32': ('bounded symbolic model checking of the real MIR of from_relative_path / to_fs_path / to_fs_name on path strings of bounded length with every byte symbolic, over a byte-string model of std::path (unix) that is validated per path against the compiled code; the thorough tier adds a Kani/CBMC harness of to_fs_name over the real std::path', '4 C32'),
+ 'C20': ('bounded symbolic model checking of the real MIR of IdIndex (build, shortest_unique_prefix_len, resolve_prefix_*), HexPrefix::matches and hex_util::common_hex_len on id sets whose distinguishing bytes are symbolic: uniqueness, minimality and resolution-by-count are solver obligations per path', '4 C20'),
  'C02': ('bounded symbolic model checking of the real MIR of trivial_merge/resolve_trivial incl. the HashMap counting path with nondeterministic iteration order; result compared by the solver with an independent counting oracle on every path', '4 C02'),
 }
 
